@@ -334,8 +334,18 @@ def r9_4(ctx):
     ctx.end()
 
 
+def r9_5(ctx):
+    """'Running a simulation leaves no hidden state behind': a backward run must hand the dependency structure back
+    unchanged, with no helper task or link left (shared with C17 R17.1-R17.3)."""
+    from .C17 import r17_1, r17_2, r17_3
+    r17_1(ctx)
+    r17_2(ctx)
+    r17_3(ctx)
+
+
 def run(ctx):
     r9_1(ctx)
     r9_2(ctx)
     r9_3(ctx)
     r9_4(ctx)
+    r9_5(ctx)
